@@ -38,10 +38,10 @@ Inductive pc :=
 | I_load | IA_load
 (* wait() / wait_for(): W_unlock carries the value to return *)
 | W_load (tm : bool) | W_lock (tm : bool) | W_test (tm : bool) | W_pred (tm : bool) | W_sleep (tm : bool)
-| W_woken (tm : bool) | W_final | W_unlock (tm : bool) (r : bool)
+| W_woken (tm : bool) | W_relock (tmo : bool) | W_final | W_unlock (tm : bool) (r : bool)
 (* waitActivation() / wait_forActivation() *)
 | V_lock (tm : bool) | V_test (tm : bool) | V_pred (tm : bool) | V_sleep (tm : bool)
-| V_woken (tm : bool) | V_final | V_unlock (tm : bool) (r : bool)
+| V_woken (tm : bool) | V_relock (tmo : bool) | V_final | V_unlock (tm : bool) (r : bool)
 (* reset() *)
 | R_lock | R_load | R_loop | R_unl | R_relock | R_store | R_unlock.
 
@@ -168,17 +168,24 @@ Definition tstep (t c : nat) (g : glob) (l : loc) : option (glob * loc * list ev
     Some (tick (set_slT (set_mT g None) (t :: slT g)),
           Loc (prog l) (W_woken tm) (sclr l) (now g) (if Nat.eqb (fslp l) 0 then now g else fslp l) (myclr l),
           [E K_CV_SLEEP O_CVT 0])
-  | W_woken tm => (* enabled when notified, or spuriously (1), or - timed form - by time-out (2); and the mutex is free *)
+  | W_woken tm =>
     let notified := negb (mem t (slT g)) in
-    if notified || Nat.eqb c 1 || (tm && Nat.eqb c 2) then
-      match mT g with
-      | None =>
-        let timeout := tm && negb notified && Nat.eqb c 2 in
-        Some (tick (set_slT (set_mT g (Some t)) (rem t (slT g))), goto (if timeout then W_final else W_pred tm),
-              [E K_CV_WAKE O_CVT (b2z timeout)])
-      | Some _ => None
-      end
-    else None
+    if tm then
+      (* timed form: the wake-up (notified, spurious (1) or time-out (2)) does not need the mutex; it is
+         re-acquired in a second step.  The event carries 1 when the wake-up was a time-out. *)
+      if notified || Nat.eqb c 1 || Nat.eqb c 2 then
+        let timeout := negb notified && Nat.eqb c 2 in
+        Some (tick (set_slT g (rem t (slT g))), goto (W_relock timeout), [E K_CV_WAKE O_CVT (b2z timeout)])
+      else None
+    else
+      (* untimed form: enabled when notified, or spuriously (1), and the mutex is free *)
+      if notified || Nat.eqb c 1 then
+        match mT g with
+        | None => Some (tick (set_slT (set_mT g (Some t)) (rem t (slT g))), goto (W_pred false), [E K_CV_WAKE O_CVT 0])
+        | Some _ => None
+        end
+      else None
+  | W_relock tmo => lockT (if tmo then W_final else W_pred true)
   | W_final => (* time-out: wait_for returns pred() *)
     Some (tick g, goto (W_unlock true (triggered g)), [ESC K_LOAD O_TRIG (b2z (triggered g))])
   | W_unlock tm r => Some (tick (set_mT g None), goto Idle, [E K_UNLOCK O_MT 0; ret_ev (b2z r)])
@@ -195,15 +202,19 @@ Definition tstep (t c : nat) (g : glob) (l : loc) : option (glob * loc * list ev
           [E K_CV_SLEEP O_CVA 0])
   | V_woken tm =>
     let notified := negb (mem t (slA g)) in
-    if notified || Nat.eqb c 1 || (tm && Nat.eqb c 2) then
-      match mA g with
-      | None =>
-        let timeout := tm && negb notified && Nat.eqb c 2 in
-        Some (tick (set_slA (set_mA g (Some t)) (rem t (slA g))), goto (if timeout then V_final else V_pred tm),
-              [E K_CV_WAKE O_CVA (b2z timeout)])
-      | Some _ => None
-      end
-    else None
+    if tm then
+      if notified || Nat.eqb c 1 || Nat.eqb c 2 then
+        let timeout := negb notified && Nat.eqb c 2 in
+        Some (tick (set_slA g (rem t (slA g))), goto (V_relock timeout), [E K_CV_WAKE O_CVA (b2z timeout)])
+      else None
+    else
+      if notified || Nat.eqb c 1 then
+        match mA g with
+        | None => Some (tick (set_slA (set_mA g (Some t)) (rem t (slA g))), goto (V_pred false), [E K_CV_WAKE O_CVA 0])
+        | Some _ => None
+        end
+      else None
+  | V_relock tmo => lockA (if tmo then V_final else V_pred true)
   | V_final =>
     Some (tick g, goto (V_unlock true (activated g)), [ESC K_LOAD O_ACT (b2z (activated g))])
   | V_unlock tm r => Some (tick (set_mA g None), goto Idle, [E K_UNLOCK O_MA 0; ret_ev (v_ret tm r)])
